@@ -61,6 +61,7 @@ Router::Router(const unsigned int flags)
       m_largest_assigned_id(0),
       m_consolidate_actions(true),
       m_currently_calling_destructors(false),
+      m_currently_processing_transaction(false),
       m_topology_addon(new TopologyAddonInterface()),
       // Mode options:
       m_allows_polyline_routing(false),
@@ -700,6 +701,18 @@ void Router::processActions(void)
 
 bool Router::processTransaction(void)
 {
+    if (m_currently_processing_transaction)
+    {
+        // Not re-entrant.  When transactions are not in use, the changes
+        // the router itself makes while processing (moving the connector
+        // ends attached to a moved shape or junction, removing junctions
+        // and connectors during hyperedge improvement) arrive here again.
+        // They have been queued: those made during processActions() are 
+        // handled by it, later ones with the next transaction, exactly 
+        // as they are when transactions are in use.
+        return false;
+    }
+
     // If SimpleRouting, then don't update here.
     if ((actionList.empty() && (m_hyperedge_rerouter.count() == 0) &&
          (m_settings_changes == false)) || SimpleRouting)
@@ -708,10 +721,12 @@ bool Router::processTransaction(void)
     }
     m_settings_changes = false;
 
+    m_currently_processing_transaction = true;
     processActions();
 
     m_static_orthogonal_graph_invalidated = true;
     rerouteAndCallbackConnectors();
+    m_currently_processing_transaction = false;
 
     return true;
 }
